@@ -5,6 +5,7 @@
    trusted base.  Schema validity is decided by the check's independent validator on every document. *)
 From PCD Require Import Base.PyBase Model.Args Model.Data Model.Consts Model.Json Model.JsonFields
   Proofs.C07_Statements Proofs.JsonProofs Gen.SrcFields.
+From PCD Require Gen.Src.
 
 (* loading the JSON form gives equal data (all NaNs identified) for every value whose integer fields
    are JSON-safe, at any nesting of code constants and for every constant kind *)
@@ -42,3 +43,8 @@ Print Assumptions C07_json_is_plain.
    (Gen/SrcFields.v is regenerated from code_data/__init__.py on every run) *)
 Example C07_fields_and_defaults_match_the_source : fields_eqb source_fields model_fields = true.
 Proof. vm_compute. reflexivity. Qed.
+
+(* the +-2^53 bounds of the model are those of the current source (Gen/Src.v, regenerated on every run) *)
+Example C07_integer_bounds_match_the_source :
+  PCD.Gen.Src.MIN_INTEGER = MIN_INTEGER /\ PCD.Gen.Src.MAX_INTEGER = MAX_INTEGER.
+Proof. split; vm_compute; reflexivity. Qed.
